@@ -275,9 +275,8 @@ func CloneAndProcessList(outputNodes []*html.Node, pageURL *nurl.URL) *html.Node
 }
 
 // CloneAndProcessTree clone and process a given node tree/subtree.
-// In original dom-distiller this will ignore hidden elements,
-// unfortunately we can't do that here, so we will include hidden
-// elements as well. NEED-COMPUTE-CSS.
+// Like the original dom-distiller this ignores hidden elements, as far
+// as IsProbablyVisible can tell without computing CSS. NEED-COMPUTE-CSS.
 func CloneAndProcessTree(root *html.Node, pageURL *nurl.URL) *html.Node {
 	return CloneAndProcessList(GetOutputNodes(root), pageURL)
 }
@@ -292,6 +291,12 @@ func GetOutputNodes(root *html.Node) []*html.Node {
 			return false
 
 		case html.ElementNode:
+			// Hidden elements (and script, style, etc. whose default
+			// display is none) must not end up in the output.
+			if !IsProbablyVisible(node) {
+				return false
+			}
+
 			outputNodes = append(outputNodes, node)
 			return true
 
